@@ -757,3 +757,36 @@ def rule_close_version_guard(ctx):
                              "on a file opened for reading the call fails and so does %s" % ("; ".join(render(cd)[:60] for cd in conds) or "none", f.name))
     ctx.floor("CLOSEVER", 1, n, "(calls of HIupdate_version)")
     return n
+
+
+def rule_readonly_shortcut_is_read(ctx):
+    """ROSHORTCUT (C14): the SD data path has a shortcut for files opened read-only — a data set without a data element is
+    answered with fill values and success, nothing is opened.  The same routine serves reads and writes (the direction is
+    `xdrs->x_op`), so the shortcut must be confined to reads; taken for a write it makes SDwritedata on a read-only file
+    return success although nothing can be written."""
+    from .codec import ast_walk, ast_exprs
+    from .facts import walk, render, int_name, is_int, mem_field
+    prog = ctx.prog
+    n = 0
+    for f in prog.lib_funcs():
+        if not f.rel.startswith("mfhdf/src/"):
+            continue
+        found = []
+
+        def vis(nn, st):
+            if nn[0] == "if" and any(y[0] == "mem" and y[2] == "hdf_mode" for y in walk(nn[1], True)) and any(y[0] == "int" and int_name(y) == "DFACC_RDONLY" for y in walk(nn[1], True)):
+                succ = any(x[0] == "asg" and x[1] == "=" and is_int(x[3], 0) and int_name(x[3]) == "SUCCEED" for e in ast_exprs(nn[2]) for x in walk(e, True))
+                if succ:
+                    found.append((nn, [a[1] for a in st if a[0] == "if"] + [nn[1]]))
+            return True
+        ast_walk(f.raw.get("ast"), vis)
+        for k, (nn, conds) in enumerate(found):
+            n += 1
+            key = "ROSHORTCUT:%s#%d" % (f.name, k + 1)
+            if any(any(y[0] == "mem" and y[2] == "x_op" for y in walk(cd, True)) for cd in conds):
+                ctx.holds("ROSHORTCUT", key, f.where(nn[4]), "the read-only shortcut is taken for XDR_DECODE only", nontrivial=True)
+            else:
+                ctx.violated("ROSHORTCUT", key, f.where(nn[4]), "`%s` leads to a success return without looking at the transfer direction (x_op): a write to a read-only file "
+                             "is answered with success" % render(nn[1])[:60])
+    ctx.floor("ROSHORTCUT", 1, n, "(success shortcuts for read-only files in the SD data path)")
+    return n
